@@ -33,6 +33,9 @@ PKGS = ['internal', 'bls12381', 'cryptutils', 'wkdibe', 'lqibe']
 C_HEADERS = ['bls12_381/bls12_381.h', 'wkdibe/wkdibe.h', 'lqibe/lqibe.h']
 
 
+KEYLIST = r'\[(?:"(?:[^"\\]|\\.)*"(?:, )?)*\]'
+
+
 class Unsupported(Exception):
     pass
 
@@ -1058,7 +1061,7 @@ def main():
     L = []
     A = L.append
     A('/- GENERATED by translate/go2lean.py from lang/go/**/*.go and the C headers — do not edit. -/')
-    A('import JediVerif.Impl.GoMemTac')
+    A('import JediVerif.Impl.GoMem')
     A('set_option maxRecDepth 4000')
     A('namespace Jedi.Gen.Go')
     A('open Jedi.Go')
@@ -1135,6 +1138,35 @@ def main():
     A('')
     for n, term in models:
         A(f'def «{n}» (E : Env) : List Ev :=\n  {term}\n')
+    A('/-- the environment keys each model reads (for printing a failing environment). -/')
+    A('def modelKeys : List (String × List Key × List Key × List String) := [')
+    rows = []
+    for n, term in models:
+        ik = sorted(set(re.findall(r'E\.i (\("[a-z]+", ' + KEYLIST + r'\))', term)))
+        bk = sorted(set(re.findall(r'E\.b (\("[a-z]+", ' + KEYLIST + r'\))', term)))
+        sk = sorted(set(re.findall(r'E\.sz ("[^"]+")', term)))
+        rows.append(f'  ({lstr(n)}, {llist(ik)}, {llist(bk)}, {llist(sk)})')
+    A(',\n'.join(rows))
+    A(']')
+    A('def models : List (String × (Env → List Ev)) := [')
+    A(',\n'.join(f'  ({lstr(n)}, «{n}»)' for n, _ in models))
+    A(']')
+    A('end Jedi.Gen.Go')
+    text = '\n'.join(L) + '\n'
+    old = open(out).read() if os.path.exists(out) else None
+    if old != text:
+        with open(out, 'w') as f:
+            f.write(text)
+    # the generated theorems
+    L = []
+    A = L.append
+    A('/- GENERATED by translate/go2lean.py — do not edit.  One memory-safety theorem per modelled function of lang/go. -/')
+    A('import JediVerif.Gen.GoBindings')
+    A('import JediVerif.Impl.GoMemTac')
+    A('set_option maxRecDepth 4000')
+    A('namespace Jedi.Gen.Go')
+    A('open Jedi.Go')
+    A('')
     A('/-! memory safety of every modelled function, for every environment (the tactic `go_mem` is in Impl/GoMemTac.lean;\n'
       'the preconditions `Pre` - what a valid call is - are hand-written in Impl/GoMem.lean) -/')
     for n, term in models:
@@ -1154,15 +1186,24 @@ def main():
             A('  ' + hv)
         A(f'  go_mem «{n}»')
         A('')
-    A('def models : List (String × (Env → List Ev)) := [')
-    A(',\n'.join(f'  ({lstr(n)}, «{n}»)' for n, _ in models))
-    A(']')
+    A('/-- every modelled function of the bindings, in every environment in which the call is valid, allocates non-negative sizes,\n'
+      'touches C memory only inside the blocks it allocated, indexes Go slices in range and does not panic. -/')
+    A('theorem mem_safe (n : String) (f : Env → List Ev) (hm : (n, f) ∈ models) (E : Env) (hv : Valid E) (hp : Pre n E) : AllOk (f E) := by')
+    A('  simp only [models, List.mem_cons, Prod.mk.injEq, List.not_mem_nil, or_false] at hm')
+    for i, (n, _) in enumerate(models):
+        if i + 1 < len(models):
+            A('  rcases hm with ⟨rfl, rfl⟩ | hm')
+            A(f'  · exact «{n}.mem» E hv hp')
+        else:
+            A('  obtain ⟨rfl, rfl⟩ := hm')
+            A(f'  exact «{n}.mem» E hv hp')
     A('end Jedi.Gen.Go')
-    text = '\n'.join(L) + '\n'
-    old = open(out).read() if os.path.exists(out) else None
-    if old != text:
-        with open(out, 'w') as f:
-            f.write(text)
+    text2 = '\n'.join(L) + '\n'
+    out2 = out.replace('.lean', 'Thms.lean')
+    old2 = open(out2).read() if os.path.exists(out2) else None
+    if old2 != text2:
+        with open(out2, 'w') as f:
+            f.write(text2)
     print(f'go2lean: {len(fnrows)} functions, {len(models)} modelled, {len(unmodelled)} digest-only, {len(set(callrows))} C calls -> {out}'
           + (' (unchanged)' if old == text else ''))
     for n, r in unmodelled:
